@@ -115,7 +115,7 @@ func classifyPackage(d *PkgDesc, c PkgCtx, cfgBad string, pullErr bool, otherSam
 	if !c.HasLabel {
 		for _, f := range d.Files {
 			for _, o := range f.Objs {
-				if f.Template && o.Tmpl != "" && o.Tmpl != "toJson" {
+				if f.Template && o.Tmpl != "" && o.Tmpl != "toJson" && o.Tmpl != "extra" {
 					return "template-missing-config-key"
 				}
 			}
